@@ -155,55 +155,202 @@ Proof.
   replace (0 <? 2 + (len body + 2)) with true by lia. f_equal; f_equal; lia.
 Qed.
 
-(* --- class: identifiers, custom properties, functions, at-keywords, hashes (no escapes) ------------------------ *)
-Inductive ident_text : list Z -> Prop :=
-| IT_plain c rest : ident_start c = true -> all_b ident_char rest -> ident_text (c :: rest)
-| IT_dash c rest : ident_start c = true -> all_b ident_char rest -> ident_text (45 :: c :: rest).
-Inductive custom_text : list Z -> Prop :=
-| IT_custom rest : all_b ident_char rest -> custom_text (45 :: 45 :: rest).
-
-(* the follower of a name: not a name byte and not a backslash *)
-Definition name_follow (r : list Z) : Prop := ident_char (hd0 r) = false /\ hd0 r <> 92.
-
-Lemma ident_loop_run a r : all_b ident_char a -> name_follow r ->
-  ident_loop (a ++ r ++ [0]) 0 = Some (len a).
-Proof.
-  intros Ha [Hr1 Hr2]. induction Ha as [|x a Hx Ha IH]; cbn [app].
-  - destruct r as [|c r]; cbn [app hd0] in *; rewrite ident_loop_0.
-    + reflexivity.
-    + rewrite Hr1. replace (c =? 92) with false by lia. reflexivity.
-  - rewrite ident_loop_0, Hx, IH. cbn [bump]. rewrite len_cons. reflexivity.
-Qed.
-
-Lemma ident_token_run t r : ident_text t \/ custom_text t -> name_follow r ->
-  consume_ident_token (t ++ r ++ [0]) = Some (len t).
-Proof.
-  intros Ht Hr. unfold consume_ident_token, ident_tail.
-  destruct Ht as [Ht|Ht]; [destruct Ht as [c rest Hc Hrest|c rest Hc Hrest]|destruct Ht as [rest Hrest]]; cbn [app].
-  - rewrite peekz_0. cbn [option_bind]. replace (c =? 45) with false by (cls; lia).
-    rewrite skipz_0, peekz_0. cbn [option_bind]. rewrite Hc. cbn [tl].
-    rewrite (ident_loop_run _ _ Hrest Hr). cbn [option_bind]. rewrite len_cons. f_equal; lia.
-  - rewrite peekz_0, peekz_1, peekz_0. cbn [option_bind]. change (45 =? 45) with true. cbv beta iota.
-    replace (c =? 45) with false by (cls; lia). rewrite skipz_1, peekz_0. cbn [option_bind]. rewrite Hc. cbn [tl].
-    rewrite (ident_loop_run _ _ Hrest Hr). cbn [option_bind]. rewrite !len_cons. f_equal; lia.
-  - rewrite peekz_0, peekz_1, peekz_0. cbn [option_bind]. change (45 =? 45) with true. cbv beta iota.
-    rewrite skipz_2. rewrite (ident_loop_run _ _ Hrest Hr). cbn [option_bind]. rewrite !len_cons. f_equal; lia.
-Qed.
-
 Lemma skipz_len_app {A} (t x : list A) : skipz (len t) (t ++ x) = x.
 Proof. unfold skipz, len. rewrite Nat2Z.id. rewrite skipn_app, skipn_all, Nat.sub_diag. reflexivity. Qed.
 
 Lemma firstz_len_app {A} (t x : list A) : firstz (len t) (t ++ x) = t.
 Proof. unfold firstz, len. rewrite Nat2Z.id. rewrite firstn_app, firstn_all, Nat.sub_diag. cbn. apply app_nil_r. Qed.
 
-Lemma ident_text_len t : ident_text t -> 0 < len t.
-Proof. intros [c rest _ _|c rest _ _]; lens; lia. Qed.
+(* --- escapes (CSS Syntax "escape" diagram) ------------------------------------------------------------------- *)
+(* An escape text e comes with a condition nb on the byte that follows it: a hex escape without its optional
+   terminating whitespace must not be followed by whitespace (which it would swallow) nor, if shorter than six
+   digits, by another hex digit. *)
+Definition any_next (c : Z) : bool := true.
+Definition not_ws_next (c : Z) : bool := negb (is_ws c).
+Definition not_hex_ws_next (c : Z) : bool := negb (is_hex c) && negb (is_ws c).
+Definition rune_need (c : Z) : Z := if c <? 224 then 2 else if c <? 240 then 3 else 4.
 
-Lemma identlike_ident_run t r : ident_text t -> name_follow r -> hd0 r <> 40 ->
+Inductive esc_text : list Z -> (Z -> bool) -> Prop :=
+| Esc_char c : is_hex c = false -> is_nl c = false -> c < 192 -> esc_text [92; c] any_next
+| Esc_rune c cont : 192 <= c -> len cont = rune_need c - 1 -> esc_text (92 :: c :: cont) any_next
+| Esc_hex_ws h w : all_b is_hex h -> 1 <= len h <= 6 -> is_ws w = true -> esc_text (92 :: h ++ [w]) any_next
+| Esc_hex6 h : all_b is_hex h -> len h = 6 -> esc_text (92 :: h) not_ws_next
+| Esc_hex h : all_b is_hex h -> 1 <= len h < 6 -> esc_text (92 :: h) not_hex_ws_next.
+
+Lemma esc_text_bs e nb : esc_text e nb -> exists e', e = 92 :: e' /\ 1 <= len e'.
+Proof.
+  intros [c _ _ _|c cont Hc Hl|h w _ Hl _|h _ Hl|h _ Hl]; eexists; (split; [reflexivity|]).
+  - lens; lia.
+  - lens; lia.
+  - rewrite len_app. change (len [w]) with 1. lia.
+  - lia.
+  - lia.
+Qed.
+
+Lemma hex_upto_run : forall n a X, all_b is_hex a -> len a <= Z.of_nat n ->
+  (len a < Z.of_nat n -> is_hex (hd0 X) = false) -> hex_upto n (a ++ X ++ [0]) = Some (len a).
+Proof.
+  induction n as [|n IH]; intros a X Ha Hl Hx.
+  - destruct a; [reflexivity|lens; lia].
+  - cbn [hex_upto]. unfold consume_hexdigit. destruct a as [|c a].
+    + cbn [app]. rewrite peekz_sent_0. cbn [option_bind]. rewrite Hx by (lens; lia). reflexivity.
+    + inversion Ha as [|? ? Hc Ha']; subst. cbn [app]. rewrite peekz_0. cbn [option_bind]. rewrite Hc.
+      cbn [Z.ltb Z.compare tl]. rewrite IH; [cbn [bump]; rewrite len_cons; reflexivity|exact Ha'|lens; lia|].
+      intros H. apply Hx. lens. lia.
+Qed.
+
+Lemma hex_not_nl c : is_hex c = true -> ((c =? 10) || (c =? 12)) = false /\ (c =? 13) = false /\ is_ws c = false.
+Proof. intros H. cls. lia. Qed.
+
+Lemma escape_run e nb r : esc_text e nb -> nb (hd0 r) = true -> consume_escape (e ++ r ++ [0]) = Some (len e).
+Proof.
+  intros He Hnb. unfold consume_escape.
+  destruct He as [c Hh Hn Hc|c cont Hc Hl|h w Hh Hl Hw|h Hh Hl|h Hh Hl]; cbn [app]; rewrite peekz_0; cbn [option_bind negb Z.eqb Pos.eqb tl].
+  - unfold consume_newline, consume_hexdigit. rewrite !peekz_0. cbn [option_bind].
+    replace ((c =? 10) || (c =? 12)) with false by (cls; lia). replace (c =? 13) with false by (cls; lia).
+    cbn [option_bind Z.ltb Z.compare]. rewrite Hh. cbn [Z.ltb Z.compare]. replace (192 <=? c) with false by lia.
+    rewrite eofb_cons_sent, andb_false_r. reflexivity.
+  - unfold consume_newline, consume_hexdigit. rewrite !peekz_0. cbn [option_bind].
+    replace ((c =? 10) || (c =? 12)) with false by lia. replace (c =? 13) with false by lia.
+    cbn [option_bind Z.ltb Z.compare]. replace (is_hex c) with false by (cls; lia). cbn [Z.ltb Z.compare].
+    replace (192 <=? c) with true by lia. rewrite rune_len_val. cbn [option_bind].
+    rewrite !len_app. change (len [0]) with 1. pose proof (len_nonneg r). unfold rune_need in Hl.
+    rewrite !len_cons. f_equal.
+    destruct (c <? 224) eqn:E1; destruct (c <? 240) eqn:E2;
+      replace (c <? 192) with false by lia; cbn [orb];
+      repeat match goal with |- context [?a <? ?b] => let v := fresh in destruct (a <? b) eqn:v; try lia end; cbn [orb]; lia.
+  - destruct h as [|h0 h]; [lens; lia|]. inversion Hh as [|? ? Hh0 Hh']; subst. cbn [app].
+    destruct (hex_not_nl h0 Hh0) as (Hn1 & Hn2 & _).
+    unfold consume_newline, consume_hexdigit. rewrite !peekz_0. cbn [option_bind]. rewrite Hn1, Hn2.
+    cbn [option_bind Z.ltb Z.compare]. rewrite Hh0. cbn [Z.ltb Z.compare tl].
+    rewrite <- app_assoc. cbn [app].
+    replace (h ++ w :: r ++ [0]) with (h ++ (w :: r) ++ [0]) by reflexivity.
+    rewrite (hex_upto_run 5 h (w :: r) Hh') by (try (intros _; cbn [hd0]; cls; lia); lens; lia).
+    cbn [option_bind]. rewrite skipz_len_app. unfold consume_whitespace. cbn [app]. rewrite peekz_0. cbn [option_bind]. rewrite Hw.
+    rewrite !len_cons, len_app. change (len [w]) with 1. f_equal. lia.
+  - destruct h as [|h0 h]; [lens; lia|]. inversion Hh as [|? ? Hh0 Hh']; subst. cbn [app].
+    destruct (hex_not_nl h0 Hh0) as (Hn1 & Hn2 & _).
+    unfold consume_newline, consume_hexdigit. rewrite !peekz_0. cbn [option_bind]. rewrite Hn1, Hn2.
+    cbn [option_bind Z.ltb Z.compare]. rewrite Hh0. cbn [Z.ltb Z.compare tl].
+    rewrite (hex_upto_run 5 h r Hh') by (lens; lia).
+    cbn [option_bind]. rewrite skipz_len_app. unfold consume_whitespace. rewrite peekz_sent_0. cbn [option_bind].
+    unfold not_ws_next in Hnb. replace (is_ws (hd0 r)) with false by (destruct (is_ws (hd0 r)); [discriminate|reflexivity]).
+    rewrite !len_cons. f_equal. lia.
+  - destruct h as [|h0 h]; [lens; lia|]. inversion Hh as [|? ? Hh0 Hh']; subst. cbn [app].
+    destruct (hex_not_nl h0 Hh0) as (Hn1 & Hn2 & _).
+    unfold not_hex_ws_next in Hnb. apply andb_true_iff in Hnb. destruct Hnb as [Hb1 Hb2].
+    apply negb_true_iff in Hb1. apply negb_true_iff in Hb2.
+    unfold consume_newline, consume_hexdigit. rewrite !peekz_0. cbn [option_bind]. rewrite Hn1, Hn2.
+    cbn [option_bind Z.ltb Z.compare]. rewrite Hh0. cbn [Z.ltb Z.compare tl].
+    rewrite (hex_upto_run 5 h r Hh') by (try (intros _; exact Hb1); lens; lia).
+    cbn [option_bind]. rewrite skipz_len_app. unfold consume_whitespace. rewrite peekz_sent_0. cbn [option_bind].
+    rewrite Hb2. rewrite !len_cons. f_equal. lia.
+Qed.
+
+(* --- class: identifiers, custom properties, functions, at-keywords, hashes -------------------------------------- *)
+(* a name body t followed by r: name bytes and escapes, every escape followed by a byte it tolerates *)
+Inductive nbody : list Z -> list Z -> Prop :=
+| NB_nil r : nbody [] r
+| NB_char c t r : ident_char c = true -> nbody t r -> nbody (c :: t) r
+| NB_esc e nb t r : esc_text e nb -> nb (hd0 (t ++ r)) = true -> nbody t r -> nbody (e ++ t) r.
+
+Lemma all_b_nbody a r : all_b ident_char a -> nbody a r.
+Proof. induction 1; constructor; assumption. Qed.
+
+(* the first item of a name: a name-start byte or an escape *)
+Inductive ident_core : list Z -> list Z -> Prop :=
+| IC_char c rest r : ident_start c = true -> nbody rest r -> ident_core (c :: rest) r
+| IC_esc e nb rest r : esc_text e nb -> nb (hd0 (rest ++ r)) = true -> nbody rest r -> ident_core (e ++ rest) r.
+Inductive ident_text : list Z -> list Z -> Prop :=
+| IT_core t r : ident_core t r -> ident_text t r
+| IT_dash t r : ident_core t r -> ident_text (45 :: t) r.
+Inductive custom_text : list Z -> list Z -> Prop :=
+| IT_custom rest r : nbody rest r -> custom_text (45 :: 45 :: rest) r.
+
+(* the follower of a name: not a name byte and not a backslash *)
+Definition name_follow (r : list Z) : Prop := ident_char (hd0 r) = false /\ hd0 r <> 92.
+
+Lemma ident_loop_skipn : forall a l, ident_loop (a ++ l) (length a) =
+  match ident_loop l 0 with Some n => Some (len a + n) | None => None end.
+Proof.
+  induction a as [|x a IH]; intros l; cbn [app length].
+  - change (len (@nil Z)) with 0. destruct (ident_loop l 0); reflexivity.
+  - rewrite ident_loop_skip, IH. destruct (ident_loop l 0); cbn [bump]; [|reflexivity]. rewrite len_cons. f_equal; lia.
+Qed.
+
+Lemma ident_loop_run t r : nbody t r -> name_follow r -> ident_loop (t ++ r ++ [0]) 0 = Some (len t).
+Proof.
+  intros Ht [Hr1 Hr2]. induction Ht as [r|c t r Hc Ht IH|e nb t r He Hnb Ht IH].
+  - cbn [app]. destruct r as [|c r]; cbn [app hd0] in *; rewrite ident_loop_0.
+    + reflexivity.
+    + rewrite Hr1. replace (c =? 92) with false by lia. reflexivity.
+  - cbn [app]. rewrite ident_loop_0, Hc, (IH Hr1 Hr2). cbn [bump]. rewrite len_cons. reflexivity.
+  - destruct (esc_text_bs e nb He) as (e' & -> & He').
+    pose proof (escape_run _ _ (t ++ r) He Hnb) as Hesc. rewrite <- !app_assoc in *. cbn [app] in *.
+    rewrite ident_loop_0. change (ident_char 92) with false. change (92 =? 92) with true. cbv beta iota.
+    rewrite Hesc. cbn [option_bind]. rewrite len_cons. replace (0 <? 1 + len e') with true by lia.
+    replace (Z.to_nat (1 + len e' - 1)) with (length e') by (unfold len; lia).
+    rewrite ident_loop_skipn, (IH Hr1 Hr2). cbn [bump]. rewrite !len_cons, len_app. f_equal; lia.
+Qed.
+
+Lemma ident_core_len t r : ident_core t r -> 0 < len t.
+Proof.
+  intros [c rest r0 _ _|e nb rest r0 He _ _]; [lens; lia|]. destruct (esc_text_bs _ _ He) as (e' & -> & Hl).
+  rewrite len_app, len_cons. pose proof (len_nonneg rest). lia.
+Qed.
+
+Lemma ident_text_len t r : ident_text t r -> 0 < len t.
+Proof. intros [t0 r0 H|t0 r0 H]; pose proof (ident_core_len _ _ H); lens; lia. Qed.
+
+(* consumeIdentToken after p bytes ('-' or nothing), on a name core *)
+Lemma ident_tail_core p pre t r : len pre = p -> ident_core t r -> name_follow r ->
+  ident_tail p false (pre ++ t ++ r ++ [0]) = Some (p + len t).
+Proof.
+  intros Hp Hc Hr. unfold ident_tail. rewrite <- Hp, skipz_len_app.
+  destruct Hc as [c rest r Hc Hrest|e nb rest r He Hnb Hrest].
+  - cbn [app]. rewrite peekz_0. cbn [option_bind]. rewrite Hc. cbn [tl].
+    rewrite (ident_loop_run _ _ Hrest Hr). cbn [option_bind]. rewrite len_cons. f_equal; lia.
+  - destruct (esc_text_bs e nb He) as (e' & Ee & He').
+    pose proof (escape_run _ _ (rest ++ r) He Hnb) as Hesc. rewrite <- !app_assoc in *.
+    rewrite Ee at 1. cbn [app]. rewrite peekz_0. cbn [option_bind]. change (ident_start 92) with false.
+    change (92 =? 92) with true. cbv beta iota. rewrite Hesc. cbn [option_bind].
+    replace (0 <? len e) with true by (rewrite Ee, len_cons; lia).
+    rewrite skipz_len_app, (ident_loop_run _ _ Hrest Hr). cbn [option_bind]. rewrite len_app. f_equal; lia.
+Qed.
+
+Lemma ident_core_hd t r : ident_core t r -> ident_start (hd0 t) = true \/ hd0 t = 92.
+Proof.
+  intros [c rest r0 Hc _|e nb rest r0 He _ _]; [left; exact Hc|right].
+  destruct (esc_text_bs _ _ He) as (e' & -> & _). reflexivity.
+Qed.
+
+Lemma nbody_hd t r : nbody t r -> t = [] \/ ident_char (hd0 t) = true \/ hd0 t = 92.
+Proof.
+  intros [r0|c t0 r0 Hc _|e nb t0 r0 He _ _]; [auto|right; left; exact Hc|right; right].
+  destruct (esc_text_bs _ _ He) as (e' & -> & _). reflexivity.
+Qed.
+
+Lemma ident_token_run t r : ident_text t r \/ custom_text t r -> name_follow r ->
+  consume_ident_token (t ++ r ++ [0]) = Some (len t).
+Proof.
+  intros Ht. unfold consume_ident_token.
+  destruct Ht as [[t0 r0 Hc|t0 r0 Hc]|[rest r0 Hrest]]; intros Hr.
+  - destruct (ident_core_hd _ _ Hc) as [Hh|Hh]; destruct t0 as [|c0 t0]; try (apply ident_core_len in Hc; lens; lia);
+      cbn [hd0 app] in *; rewrite peekz_0; cbn [option_bind]; replace (c0 =? 45) with false by (cls; lia);
+      apply (ident_tail_core 0 [] (c0 :: t0) r0 eq_refl Hc Hr).
+  - cbn [app]. rewrite peekz_0, peekz_1. cbn [option_bind]. change (45 =? 45) with true. cbv beta iota.
+    destruct t0 as [|c0 t0]; [apply ident_core_len in Hc; lens; lia|]. cbn [app]. rewrite peekz_0. cbn [option_bind].
+    replace (c0 =? 45) with false by (destruct (ident_core_hd _ _ Hc) as [Hh|Hh]; cbn [hd0] in Hh; cls; lia).
+    rewrite (len_cons 45). apply (ident_tail_core 1 [45] (c0 :: t0) r0 eq_refl Hc Hr).
+  - cbn [app]. rewrite peekz_0, peekz_1, peekz_0. cbn [option_bind]. change (45 =? 45) with true. cbv beta iota.
+    unfold ident_tail. rewrite skipz_2. rewrite (ident_loop_run _ _ Hrest Hr). cbn [option_bind]. rewrite !len_cons. f_equal; lia.
+Qed.
+
+Lemma identlike_ident_run t r : ident_text t r -> name_follow r -> hd0 r <> 40 ->
   consume_identlike (t ++ r ++ [0]) = Some (TIdent, len t).
 Proof.
   intros Ht Hr H40. unfold consume_identlike. rewrite (ident_token_run t r (or_introl Ht) Hr). cbn [option_bind].
-  pose proof (ident_text_len t Ht). replace (len t =? 0) with false by lia.
+  pose proof (ident_text_len t r Ht). replace (len t =? 0) with false by lia.
   rewrite skipz_len_app. rewrite peekz_sent_0. cbn [option_bind].
   replace (hd0 r =? 40) with false by lia. reflexivity.
 Qed.
@@ -212,105 +359,112 @@ Qed.
 Definition u_follow (t r : list Z) : Prop :=
   match t with [c] => (c =? 117) || (c =? 85) = true -> hd0 r <> 43 | _ => True end.
 
-Lemma munch_ident t r : ident_text t -> name_follow r -> hd0 r <> 40 -> u_follow t r -> munch TIdent t r.
+(* Next on a buffer that starts with a name (not "--"): everything before consumeIdentlike fails *)
+Lemma scan_via_identlike t x ty n : (exists r, ident_text t r) -> (match t with [c] => (c =? 117) || (c =? 85) = true -> hd0 x <> 43 | _ => True end) ->
+  consume_identlike (t ++ x ++ [0]) = Some (ty, n) -> is_err ty = false -> css_scan (t ++ x ++ [0]) = Some (ty, n).
 Proof.
-  intros Ht Hr H40 Hu. pose proof (identlike_ident_run t r Ht Hr H40) as Hil.
-  split; [|split; [reflexivity|destruct Ht; discriminate]].
-  destruct Ht as [c rest Hc Hrest|c rest Hc Hrest]; cbn [app] in *.
-  - unfold css_scan. rewrite peekz_0. cbn [option_bind].
-    destruct ((c =? 117) || (c =? 85)) eqn:Eu.
-    + repeat dec1. unfold consume_unicode_range. rewrite peekz_0, peekz_1. cbn [option_bind]. rewrite Eu. cbn [negb].
-      assert (Hp : exists c1, peekz (rest ++ r ++ [0]) 0 = Some c1 /\ c1 <> 43).
-      { destruct rest as [|c1 rest]; cbn [app].
-        - rewrite peekz_sent_0. eexists; split; [reflexivity|]. apply Hu. exact Eu.
-        - rewrite peekz_0. eexists; split; [reflexivity|]. inversion Hrest; subst. cls. lia. }
-      destruct Hp as (c1 & -> & Hc1). cbn [option_bind]. replace (c1 =? 43) with false by lia. cbn [negb].
-      cbn [option_bind Z.ltb Z.compare]. cbv beta iota. rewrite Hil. reflexivity.
-    + repeat dec1. rewrite numeric_nondigit by (cls; lia). cbn [option_bind fst is_err negb]. rewrite Hil. reflexivity.
-  - unfold css_scan. rewrite peekz_0. cbn [option_bind]. repeat dec1.
+  intros (r & Ht) Hu Hil Hty.
+  destruct Ht as [t0 r0 Hc|t0 r0 Hc].
+  - destruct (ident_core_hd _ _ Hc) as [Hh|Hh]; destruct t0 as [|c t0]; try (apply ident_core_len in Hc; lens; lia);
+      cbn [hd0 app] in *; unfold css_scan; rewrite peekz_0; cbn [option_bind].
+    + destruct ((c =? 117) || (c =? 85)) eqn:Eu.
+      * repeat dec1. unfold consume_unicode_range. rewrite peekz_0, peekz_1. cbn [option_bind]. rewrite Eu. cbn [negb].
+        assert (Hp : exists c1, peekz (t0 ++ x ++ [0]) 0 = Some c1 /\ c1 <> 43).
+        { destruct t0 as [|c1 t0]; cbn [app].
+          - rewrite peekz_sent_0. eexists; split; [reflexivity|]. apply Hu. reflexivity.
+          - rewrite peekz_0. eexists; split; [reflexivity|].
+            assert (Hb : nbody (c1 :: t0) r0) by (inversion Hc as [? ? ? _ Hb|e nb rest ? He _ _ Ee]; [exact Hb|];
+              destruct (esc_text_bs _ _ He) as (e' & -> & _); cbn [app] in Ee; injection Ee as Ec _; cls; lia).
+            destruct (nbody_hd _ _ Hb) as [?|[Hx|Hx]]; [discriminate|cbn [hd0] in Hx; cls; lia|cbn [hd0] in Hx; lia]. }
+        destruct Hp as (c1 & -> & Hc1). cbn [option_bind]. replace (c1 =? 43) with false by lia. cbn [negb].
+        cbn [option_bind Z.ltb Z.compare]. cbv beta iota. rewrite Hil. cbn [option_bind]. unfold or_delim. cbn [fst]. rewrite Hty. reflexivity.
+      * repeat dec1. rewrite numeric_nondigit by (cls; lia). cbn [option_bind fst is_err negb]. rewrite Hil.
+        cbn [option_bind]. unfold or_delim. cbn [fst]. rewrite Hty. reflexivity.
+    + subst c. repeat dec1. rewrite Hil. cbn [option_bind]. unfold or_delim. cbn [fst]. rewrite Hty. reflexivity.
+  - destruct t0 as [|c t0]; [apply ident_core_len in Hc; lens; lia|].
+    assert (Hc45 : c <> 45) by (destruct (ident_core_hd _ _ Hc) as [Hh|Hh]; cbn [hd0] in Hh; cls; lia).
+    cbn [app] in *. unfold css_scan. rewrite peekz_0. cbn [option_bind]. repeat dec1.
     unfold consume_cdc. rewrite peekz_0, peekz_1, peekz_0. cbn [option_bind]. repeat dec1.
     cbn [option_bind Z.ltb Z.compare]. cbv beta iota.
     unfold consume_custom_variable. rewrite peekz_1, peekz_0. cbn [option_bind]. repeat dec1.
-    cbn [option_bind Z.ltb Z.compare]. cbv beta iota. rewrite Hil. reflexivity.
+    cbn [option_bind Z.ltb Z.compare]. cbv beta iota. rewrite Hil. cbn [option_bind fst]. rewrite Hty. reflexivity.
 Qed.
 
-Lemma munch_custom t r : custom_text t -> name_follow r -> (t = [45; 45] -> hd0 r <> 62) ->
+Lemma munch_ident t r : ident_text t r -> name_follow r -> hd0 r <> 40 -> u_follow t r -> munch TIdent t r.
+Proof.
+  intros Ht Hr H40 Hu. pose proof (identlike_ident_run t r Ht Hr H40) as Hil.
+  split; [|split; [reflexivity|pose proof (ident_text_len _ _ Ht); intros ->; cbn in *; lia]].
+  apply scan_via_identlike; [eauto|exact Hu|exact Hil|reflexivity].
+Qed.
+
+Lemma munch_custom t r : custom_text t r -> name_follow r -> (t = [45; 45] -> hd0 r <> 62) ->
   munch TCustomPropertyName t r.
 Proof.
   intros Ht Hr H62. pose proof (ident_token_run t r (or_intror Ht) Hr) as Hit.
   split; [|split; [reflexivity|destruct Ht; discriminate]].
-  destruct Ht as [rest Hrest]. cbn [app] in *.
+  inversion Ht as [rest r0 Hrest]; subst. cbn [app] in *.
   unfold css_scan. rewrite peekz_0. cbn [option_bind]. repeat dec1.
   unfold consume_cdc. rewrite peekz_0, peekz_1, peekz_2, peekz_1, peekz_0. cbn [option_bind]. repeat dec1.
   assert (Hp : exists c2, peekz (rest ++ r ++ [0]) 0 = Some c2 /\ c2 <> 62).
   { destruct rest as [|c2 rest]; cbn [app].
     - rewrite peekz_sent_0. eexists; split; [reflexivity|]. apply H62. reflexivity.
-    - rewrite peekz_0. eexists; split; [reflexivity|]. inversion Hrest; subst. cls. lia. }
+    - rewrite peekz_0. eexists; split; [reflexivity|].
+      destruct (nbody_hd _ _ Hrest) as [?|[Hx|Hx]]; [discriminate|cbn [hd0] in Hx; cls; lia|cbn [hd0] in Hx; lia]. }
   destruct Hp as (c2 & -> & Hc2). cbn [option_bind]. replace (c2 =? 62) with false by lia.
   cbn [option_bind Z.ltb Z.compare]. cbv beta iota.
   unfold consume_custom_variable. rewrite peekz_1, peekz_0. cbn [option_bind]. repeat dec1. rewrite Hit.
   cbn [option_bind]. replace (0 <? len (45 :: 45 :: rest)) with true by (lens; lia). reflexivity.
 Qed.
 
-Lemma strip_backslash_name t : ident_text t -> strip_backslash t = t.
-Proof.
-  assert (Hall : forall a, all_b ident_char a -> strip_backslash a = a).
-  { induction 1 as [|x a Hx Ha IH]; [reflexivity|]. unfold strip_backslash in *. cbn [filter].
-    replace (x =? 92) with false by (cls; lia). cbn [negb]. rewrite IH. reflexivity. }
-  intros [c rest Hc Hrest|c rest Hc Hrest]; unfold strip_backslash in *; cbn [filter].
-  - replace (c =? 92) with false by (cls; lia). cbn [negb]. f_equal. apply Hall. exact Hrest.
-  - change (45 =? 92) with false. replace (c =? 92) with false by (cls; lia). cbn [negb]. do 2 f_equal. apply Hall. exact Hrest.
-Qed.
+Lemma name_follow_paren r : name_follow (40 :: r).
+Proof. split; [reflexivity|cbn; lia]. Qed.
 
-Lemma munch_function name r : ident_text name -> is_url_name name = false -> munch TFunction (name ++ [40]) r.
+Lemma munch_function name r : ident_text name (40 :: r) -> is_url_name name = false -> munch TFunction (name ++ [40]) r.
 Proof.
   intros Ht Hurl.
-  assert (Hf : name_follow (40 :: r)) by (split; [reflexivity|cbn; lia]).
-  pose proof (ident_token_run name (40 :: r) (or_introl Ht) Hf) as Hit.
-  pose proof (ident_text_len name Ht) as Hlen.
+  pose proof (ident_token_run name (40 :: r) (or_introl Ht) (name_follow_paren r)) as Hit.
+  pose proof (ident_text_len name _ Ht) as Hlen.
   assert (Hil : consume_identlike (name ++ (40 :: r) ++ [0]) = Some (TFunction, len name + 1)).
   { unfold consume_identlike. rewrite Hit. cbn [option_bind]. replace (len name =? 0) with false by lia.
     rewrite skipz_len_app. cbn [app]. rewrite peekz_0. cbn [option_bind]. change (negb (40 =? 40)) with false.
     cbv beta iota. rewrite firstz_len_app. rewrite Hurl. reflexivity. }
   split; [|split; [reflexivity|destruct name; discriminate]].
   rewrite len_app. change (len [40]) with 1. rewrite <- app_assoc. change ([40] ++ r ++ [0]) with ((40 :: r) ++ [0]).
-  destruct Ht as [c rest Hc Hrest|c rest Hc Hrest]; cbn [app] in *.
-  - unfold css_scan. rewrite peekz_0. cbn [option_bind].
-    destruct ((c =? 117) || (c =? 85)) eqn:Eu.
-    + repeat dec1. unfold consume_unicode_range. rewrite peekz_0, peekz_1. cbn [option_bind]. rewrite Eu. cbn [negb].
-      assert (Hp : exists c1, peekz (rest ++ 40 :: r ++ [0]) 0 = Some c1 /\ c1 <> 43).
-      { destruct rest as [|c1 rest]; cbn [app]; rewrite peekz_0; eexists; (split; [reflexivity|]); [lia|].
-        inversion Hrest; subst. cls. lia. }
-      destruct Hp as (c1 & -> & Hc1). cbn [option_bind]. replace (c1 =? 43) with false by lia. cbn [negb].
-      cbn [option_bind Z.ltb Z.compare]. cbv beta iota. rewrite Hil. reflexivity.
-    + repeat dec1. rewrite numeric_nondigit by (cls; lia). cbn [option_bind fst is_err negb]. rewrite Hil. reflexivity.
-  - unfold css_scan. rewrite peekz_0. cbn [option_bind]. repeat dec1.
-    unfold consume_cdc. rewrite peekz_0, peekz_1, peekz_0. cbn [option_bind]. repeat dec1.
-    cbn [option_bind Z.ltb Z.compare]. cbv beta iota.
-    unfold consume_custom_variable. rewrite peekz_1, peekz_0. cbn [option_bind]. repeat dec1.
-    cbn [option_bind Z.ltb Z.compare]. cbv beta iota. rewrite Hil. reflexivity.
+  apply scan_via_identlike; [eauto| |exact Hil|reflexivity].
+  destruct name as [|c [|c1 n]]; try exact I. intros _. cbn. lia.
 Qed.
 
-Lemma munch_at_keyword name r : ident_text name \/ custom_text name -> name_follow r ->
+Lemma munch_at_keyword name r : ident_text name r \/ custom_text name r -> name_follow r ->
   munch TAtKeyword (64 :: name) r.
 Proof.
   intros Ht Hr. pose proof (ident_token_run name r Ht Hr) as Hit.
-  assert (0 < len name) by (destruct Ht as [Ht|Ht]; [apply ident_text_len; exact Ht|destruct Ht; lens; lia]).
+  assert (0 < len name) by (destruct Ht as [Ht|Ht]; [eapply ident_text_len; exact Ht|destruct Ht; lens; lia]).
   split; [|split; [reflexivity|discriminate]].
   unfold css_scan. cbn [app]. rewrite peekz_0. cbn [option_bind]. repeat dec1.
   unfold consume_at_keyword. cbn [tl]. rewrite Hit. cbn [option_bind]. replace (0 <? len name) with true by lia.
   cbn [option_bind]. unfold pos_tok. rewrite len_cons. replace (0 <? 1 + len name) with true by lia. reflexivity.
 Qed.
 
-Lemma munch_hash body r : body <> [] -> all_b ident_char body -> name_follow r -> munch THash (35 :: body) r.
+Lemma munch_hash body r : body <> [] -> nbody body r -> name_follow r -> munch THash (35 :: body) r.
 Proof.
   intros Hne Hb Hr. split; [|split; [reflexivity|discriminate]].
-  destruct body as [|c body]; [congruence|]. inversion Hb as [|? ? Hc Hb']; subst.
+  pose proof (len_nonneg body) as Hlb.
   unfold css_scan. cbn [app]. rewrite peekz_0. cbn [option_bind]. repeat dec1.
-  unfold consume_hash. cbn [tl]. rewrite peekz_0. cbn [option_bind]. rewrite Hc.
-  rewrite (ident_loop_run _ _ Hb' Hr). cbn [option_bind]. unfold pos_tok. rewrite !len_cons. pose proof (len_nonneg body).
-  replace (0 <? 2 + len body) with true by lia. f_equal; f_equal; lia.
+  unfold consume_hash. cbn [tl].
+  destruct Hb as [r|c t r Hc Ht|e nb t r He Hnb Ht]; [congruence| |].
+  - cbn [app]. rewrite peekz_0. cbn [option_bind]. rewrite Hc. cbn [tl].
+    rewrite (ident_loop_run _ _ Ht Hr). cbn [option_bind]. unfold pos_tok. rewrite !len_cons. pose proof (len_nonneg t).
+    replace (0 <? 2 + len t) with true by lia. f_equal; f_equal; lia.
+  - destruct (esc_text_bs e nb He) as (e' & Ee & He').
+    pose proof (escape_run _ _ (t ++ r) He Hnb) as Hesc. rewrite <- !app_assoc in *.
+    rewrite Ee at 1. cbn [app]. rewrite peekz_0. cbn [option_bind]. change (ident_char 92) with false.
+    change (92 =? 92) with true. cbv beta iota. rewrite Hesc. cbn [option_bind].
+    replace (0 <? len e) with true by (rewrite Ee, len_cons; lia).
+    rewrite skipz_len_app, (ident_loop_run _ _ Ht Hr). cbn [option_bind]. unfold pos_tok.
+    rewrite len_cons, len_app. pose proof (len_nonneg t). pose proof (len_nonneg e).
+    replace (0 <? 1 + len e + len t) with true by lia. f_equal; f_equal; lia.
 Qed.
+
 
 (* --- class: number, percentage, dimension (with the "." and "e" back-off) ---------------------------------------- *)
 Definition sign_text (s : list Z) : Prop := s = [] \/ s = [43] \/ s = [45].
@@ -574,10 +728,16 @@ Proof.
   rewrite Et in *. cbn [app] in *. apply scan_via_numeric; [apply num_start_app; exact Hh|exact Hnum|reflexivity].
 Qed.
 
+Lemma name_hd t r : ident_text t r \/ custom_text t r -> hd0 t = 45 \/ ident_start (hd0 t) = true \/ hd0 t = 92.
+Proof.
+  intros [[t0 r0 Hc|t0 r0 Hc]|[rest r0 _]]; [|left; reflexivity|left; reflexivity].
+  destruct (ident_core_hd _ _ Hc); auto.
+Qed.
+
 (* a dimension: the unit is a name that does not read as an exponent (num_follow on unit ++ r says so) *)
 Lemma munch_dimension sg ip fd ex unit r :
   sign_text sg -> all_b is_digit ip -> all_b is_digit fd -> (ip <> [] \/ fd <> []) -> exp_text ex ->
-  ident_text unit \/ custom_text unit -> num_follow (nonemptyb fd) (nonemptyb ex) (unit ++ r) -> name_follow r ->
+  ident_text unit r \/ custom_text unit r -> num_follow (nonemptyb fd) (nonemptyb ex) (unit ++ r) -> name_follow r ->
   munch TDimension ((sg ++ ip ++ frac fd ++ ex) ++ unit) r.
 Proof.
   intros Hsg Hip Hfd Hne Hex Hu Hfol Hr.
@@ -585,9 +745,9 @@ Proof.
   pose proof (num_text_nonempty sg ip fd ex Hne) as Hlen.
   destruct (num_head sg ip fd ex Hsg Hip Hfd Hne) as (c0 & rest & Et & Hh).
   pose proof (ident_token_run unit r Hu Hr) as Hit.
-  assert (Hul : 0 < len unit) by (destruct Hu as [Hu|Hu]; [apply ident_text_len; exact Hu|destruct Hu; lens; lia]).
+  assert (Hul : 0 < len unit) by (destruct Hu as [Hu|Hu]; [eapply ident_text_len; exact Hu|destruct Hu; lens; lia]).
   assert (Hu37 : hd0 (unit ++ r) <> 37).
-  { destruct Hu as [Hu|Hu]; destruct Hu; cbn [app hd0]; cls; lia. }
+  { destruct (name_hd _ _ Hu) as [Hx|[Hx|Hx]]; destruct unit as [|u0 unit]; try (lens; lia); cbn [app hd0] in *; cls; lia. }
   set (t := sg ++ ip ++ frac fd ++ ex) in *.
   split; [|split; [reflexivity|destruct t; discriminate]].
   rewrite len_app. rewrite <- app_assoc.
@@ -663,11 +823,11 @@ Inductive tok_spec : ttype -> list Z -> list Z -> Prop :=
 | TS_ws t r : t <> [] -> all_b is_ws t -> is_ws (hd0 r) = false -> tok_spec TWhitespace t r
 | TS_fixed ty t r : In (ty, t) fixed_tokens -> tok_spec ty t r
 | TS_comment body r : no_close body = true -> tok_spec TComment (47 :: 42 :: body ++ [42; 47]) r
-| TS_ident t r : ident_text t -> name_follow r -> hd0 r <> 40 -> u_follow t r -> tok_spec TIdent t r
-| TS_custom t r : custom_text t -> name_follow r -> (t = [45; 45] -> hd0 r <> 62) -> tok_spec TCustomPropertyName t r
-| TS_function name r : ident_text name -> is_url_name name = false -> tok_spec TFunction (name ++ [40]) r
-| TS_at name r : ident_text name \/ custom_text name -> name_follow r -> tok_spec TAtKeyword (64 :: name) r
-| TS_hash body r : body <> [] -> all_b ident_char body -> name_follow r -> tok_spec THash (35 :: body) r
+| TS_ident t r : ident_text t r -> name_follow r -> hd0 r <> 40 -> u_follow t r -> tok_spec TIdent t r
+| TS_custom t r : custom_text t r -> name_follow r -> (t = [45; 45] -> hd0 r <> 62) -> tok_spec TCustomPropertyName t r
+| TS_function name r : ident_text name (40 :: r) -> is_url_name name = false -> tok_spec TFunction (name ++ [40]) r
+| TS_at name r : ident_text name r \/ custom_text name r -> name_follow r -> tok_spec TAtKeyword (64 :: name) r
+| TS_hash body r : body <> [] -> nbody body r -> name_follow r -> tok_spec THash (35 :: body) r
 | TS_number sg ip fd ex r :
     sign_text sg -> all_b is_digit ip -> all_b is_digit fd -> (ip <> [] \/ fd <> []) -> exp_text ex ->
     num_follow (nonemptyb fd) (nonemptyb ex) r -> hd0 r <> 37 -> no_name_start r ->
@@ -677,7 +837,7 @@ Inductive tok_spec : ttype -> list Z -> list Z -> Prop :=
     tok_spec TPercentage ((sg ++ ip ++ frac fd ++ ex) ++ [37]) r
 | TS_dimension sg ip fd ex unit r :
     sign_text sg -> all_b is_digit ip -> all_b is_digit fd -> (ip <> [] \/ fd <> []) -> exp_text ex ->
-    ident_text unit \/ custom_text unit -> num_follow (nonemptyb fd) (nonemptyb ex) (unit ++ r) -> name_follow r ->
+    ident_text unit r \/ custom_text unit r -> num_follow (nonemptyb fd) (nonemptyb ex) (unit ++ r) -> name_follow r ->
     tok_spec TDimension ((sg ++ ip ++ frac fd ++ ex) ++ unit) r
 | TS_string q body r : is_quote q -> all_b (str_byte q) body -> tok_spec TString (q :: body ++ [q]) r
 | TS_bad_string q body nl r : is_quote q -> all_b (str_byte q) body -> is_nl nl = true ->
@@ -733,7 +893,7 @@ Proof.
   { intros P l H. unfold all_b. rewrite Forall_forall. rewrite forallb_forall in H. exact H. }
   cbn [seq_ok fst snd map concat app].
   repeat split.
-  - apply TS_ident; [apply (IT_plain 97 []); [reflexivity|constructor]|split; [reflexivity|cbn; lia]|cbn; lia|cbn; intros; discriminate].
+  - apply TS_ident; [apply IT_core, (IC_char 97 []); [reflexivity|constructor]|split; [reflexivity|cbn; lia]|cbn; lia|cbn; intros; discriminate].
   - apply TS_fixed. cbn. auto.
   - apply TS_ws; [discriminate|apply Hall; reflexivity|reflexivity].
   - apply (TS_number [] [49] [] []); [left; reflexivity|apply Hall; reflexivity|constructor|left; discriminate|constructor| |cbn; lia|repeat split; cbn; lia].
@@ -741,7 +901,7 @@ Proof.
   - apply TS_fixed. cbn. auto.
   - apply (TS_dimension [45] [49] [53] [] [101; 109]);
       [right; right; reflexivity|apply Hall; reflexivity|apply Hall; reflexivity|left; discriminate|constructor| | |split; [reflexivity|cbn; lia]].
-    + left. apply (IT_plain 101 [109]); [reflexivity|apply Hall; reflexivity].
+    + left. apply IT_core, (IC_char 101 [109]); [reflexivity|apply all_b_nbody, Hall; reflexivity].
     + repeat split; cbn; intros; try lia; try discriminate.
   - apply TS_fixed. cbn. auto 10.
   - apply (TS_string 34 [120]); [left; reflexivity|apply Hall; reflexivity].
